@@ -597,3 +597,47 @@ CONTRACTS[U + 'stabilizer_projection_trace'] = dict(
            1: dict(var='jj', invariant=_pt_inner, hints_head=_m['loops'][1]['hints_head'])},
     hints=_m['hints'],
 )
+
+# ------------------------------------------------------------------ C18: single-string diagonalisation
+PREDS['qterm'] = (('x', 'y', 'k'), 'x[2 * k + 1] * y[2 * k] - x[2 * k] * y[2 * k + 1]')
+PREDS['unitZ'] = (('h', 'i0', 'N'), 'forall(c, 0, 2 * N, h[c] == b2i(c == 2 * i0 + 1))')
+LEMMAS['acq_diff2'] = dict(
+    doc='changing a string on (at most) two qubits changes the symplectic sum by the terms of those qubits',
+    params=[('a', 'int1'), ('a2', 'int1'), ('b', 'int1'), ('n', 'int'), ('i', 'int'), ('j', 'int')],
+    requires=['forall(c, 0, 2 * n, implies(c != 2 * i and c != 2 * i + 1 and c != 2 * j and c != 2 * j + 1, a2[c] == a[c]))'],
+    ensures=['AcqSum(a2, b, n) - AcqSum(a, b, n) == '
+             '(qterm(a2, b, i) - qterm(a, b, i) if (0 <= i and i < n) else 0) + '
+             '(qterm(a2, b, j) - qterm(a, b, j) if (0 <= j and j < n and j != i) else 0)'],
+    induction='n',
+)
+LEMMAS['onsite_flat'] = dict(
+    doc='a string that is trivial on every qubit but i0 has zero entries outside positions 2 i0, 2 i0 + 1',
+    params=[('g', 'int1'), ('i0', 'int'), ('n', 'int')],
+    requires=['forall(k, 0, n, k == i0 or (g[2 * k] == 0 and g[2 * k + 1] == 0))'],
+    ensures=['forall(c, 0, 2 * n, implies(c != 2 * i0 and c != 2 * i0 + 1, g[c] == 0))'],
+    induction='n',
+)
+_d1_N = 'len(old(g1)) // 2'
+_g0 = 'old(g1)'
+CONTRACTS[U + 'pauli_diagonalize1'] = dict(
+    params=[('g1', 'int1'), ('i0', 'int')], defaults={'i0': 0},
+    requires=['len(g1) % 2 == 0', '0 <= i0 < len(g1) // 2', 'bits1(g1)', 'exists(c, 0, len(g1), g1[c] != 0)'],
+    # rotating by the returned generators in order: each one anticommutes with the current string (so the rotation multiplies it
+    # in), and the string that is left is Z on qubit i0
+    ensures=['len(result) <= 2',
+             'implies(len(result) == 0, unitZ(%s, i0, %s))' % (_g0, _d1_N),
+             'implies(len(result) == 1, anti(result[0], %s, %s) and unitZ(Xor(%s, result[0]), i0, %s))' % (_g0, _d1_N, _g0, _d1_N),
+             'implies(len(result) == 2, anti(result[0], %s, %s) and anti(result[1], Xor(%s, result[0]), %s) and '
+             'unitZ(Xor(Xor(%s, result[0]), result[1]), i0, %s))' % (_g0, _d1_N, _g0, _d1_N, _g0, _d1_N)],
+    modifies=[], returns='list',
+    hints={'return': [
+        ('lemma?', 'onsite_flat', [_g0, 'i0', 'N']),
+        ('lemma', 'acq_antisym', [_g0, _g0, 'N']),
+        # first generator: the input changed on the pivot qubit i (if any) and on i0
+        ('lemma?', 'acq_diff2', [_g0, 'result[0]', _g0, 'N', 'i', 'i0'], 'optional'),
+        ('lemma?', 'acq_diff2', [_g0, 'result[0]', _g0, 'N', 'i0', 'i0'], 'optional'),
+        # second generator: the current string with Z toggled on i0
+        ('lemma', 'acq_antisym', ['Xor(%s, result[0])' % _g0, 'Xor(%s, result[0])' % _g0, 'N'], 'optional'),
+        ('lemma?', 'acq_diff2', ['Xor(%s, result[0])' % _g0, 'result[1]', 'Xor(%s, result[0])' % _g0, 'N', 'i0', 'i0'], 'optional'),
+    ]},
+)
